@@ -149,7 +149,7 @@ Proof.
   unfold spec_enabled in H. apply existsb_exists in H. destruct H as (t & Ht & Hc).
   apply andb_true_iff in Hc. destruct Hc as [Hc _]. apply andb_true_iff in Hc. destruct Hc as [_ Hp].
   apply N.eqb_eq in Hp. unfold cands. apply in_flat_map. exists (fst e). split.
-  - unfold spec_pids. rewrite <- Hp. now apply in_map.
+  - unfold spec_pids. rewrite <- Hp. apply (in_map (fun x : kind * N * N => snd (fst x))). exact Ht.
   - destruct e as [p [|]]; cbn; auto.
 Qed.
 
